@@ -8,14 +8,19 @@ HARNESS_TIMEOUT = 1800
 
 TRUSTED = [
     "Lean 4 kernel; axioms of every theorem audited (propext, Classical.choice, Quot.sound at most)",
-    "hand-written model lean/CppUModel/Model/SeparateProcess.lean (wait-status macros as glibc defines them, "
-    "SetTestFailureByStatusCode, the parent's do/while wait loop, the registry loop), tied to "
-    "src/Platforms/Gcc/UtestPlatform.cpp by the h_c11 correspondence of this run (stubbed fork/waitpid seams and real children)",
+    "translator translate/cxx2lean_c11.py: clang++-14 typed JSON AST of SetTestFailureByStatusCode and "
+    "GccPlatformSpecificRunTestInASeperateProcess (wait-status macros, EINTR, WUNTRACED, SIGCONT as the installed headers expand "
+    "them) executed symbolically into Gen/SeparateProcessLoop.lean (setTestFailureGen, forkFailedGen, childExitGen, waitBodyGen on "
+    "BitVec 32 / BitVec 64); its case split of the environment (fork: -1 / 0 / pid; waitpid: EINTR / other error / pid + status) "
+    "and its C-to-BitVec typing are trusted, its output is proved equal to the hand model and executed by the driver next to it",
+    "hand-written model lean/CppUModel/Model/SeparateProcess.lean (registry loop, child steps, -p path, fork-less build; the wait "
+    "loop and status decoding are now proved equal to the regenerated function), tied to the code by the h_c11 correspondence of "
+    "this run (stubbed fork/waitpid seams and real children, incl. the wait status each real child ended with)",
     "the statement list of CommandLineTestRunner::initializeTestRun regenerated as Gen initStatements (switch, spelled `else if`); "
     "shape checks of CommandLineArguments::parse (-p) and CommandLineTestRunner::runAllTests",
-    "extractor translate/extract_sepproc.py: EINTR retry bound, the if/else-if chain of SetTestFailureByStatusCode and the "
-    "failure messages regenerated into Gen/SeparateProcessConstants.lean; shape check of the whole parent/child function, "
-    "of the two seam implementations, of UtestShell::runOneTest and of TestRegistry::runAllTests",
+    "extractor translate/extract_sepproc.py: retry bound and fork/waitpid/EINTR messages read off the regenerated loop, the "
+    "if/else-if chain of SetTestFailureByStatusCode as a table, position of the per-test flag in TestRegistry::runAllTests; shape "
+    "checks of the fork-less variant, the two seam implementations, UtestShell::runOneTest, TestResult::addFailure/countRun",
     "real-process part calls the tree's own PlatformSpecificFork/WaitPid implementations (saved seam pointers), incl. a scenario "
     "with a 1-2 ms POSIX timer signal handled without SA_RESTART while a child sleeps 400-500 ms",
     "a scenario in which the tree's real fork fails with EAGAIN (case process: setuid 65534 + RLIMIT_NPROC 0; skipped with "
@@ -27,18 +32,23 @@ TRUSTED = [
 ASSUMPTIONS = [
     "LP64 Linux/glibc: int is 32 bits, <bits/waitstatus.h> macro definitions, signals 1..31",
     "waitpid returns either -1 or the child's pid (no WNOHANG), so a non-error return is the awaited child",
-    "failure and run counters do not wrap (size_t modelled as Nat)",
+    "failure and run counters of the registry do not wrap (size_t modelled as Nat); the retry counter and the child's two "
+    "failure counts are 64-bit words in the regenerated function (theorems: counter never exceeds bound+1; counts below 2^64)",
+    "arithmetic right shift of a negative int (implementation-defined in C) is what gcc/clang do; it is only applied to masked, "
+    "non-negative values here (proved: gen_exitstatus)",
     "SIGTSTP/SIGTTIN/SIGTTOU raised by a child in an orphaned process group are discarded by the kernel instead of stopping it: "
     "the oracle accepts zero or one stop event for them, consistent with what waitpid reported",
     "ASan's own handlers for SIGSEGV/SIGBUS/SIGFPE are reset to SIG_DFL by the child before it raises the signal "
     "(otherwise ASan turns the signal into exit(77), a non-zero exit, which is also recorded once)",
 ]
-RULE = ("registries of 1..12 tests in one or several groups (dying tests also 2nd..4th of their group), separate-process mode "
+RULE = ("registries of 1..12 tests in one or several groups (dying tests also 2nd..4th of their group; entries of kind "
+        "IgnoredUtestShell with dying bodies, run-ignored on through the API or -ri, or off), separate-process mode "
         "set through the registry API or through CommandLineTestRunner with -p combined with every subset/order of the switches that do not change which tests run (-c -v -vv -ojunit -oteamcity -r1 -b -s<seed> -ri and filters that select everything); a second harness build without "
         "fork/waitpid/kill; per test either a scripted fork/waitpid outcome list "
         "(exit codes, signals with and without core flag, stops, continued-style words, EINTR runs around the retry bound, "
         "waitpid errors, fork failure, trailing results after the child's end, scripts that never end) or a real child that "
-        "dies by a signal / _exit(n) / failed check / SIGSTOP in setup, body, teardown or a plugin pre/post action, optionally "
+        "dies by a signal / _exit(n) / failed check / SIGSTOP in setup, body, teardown or a plugin pre/post action (a plugin "
+        "action reporting 1, 2, 255, 256, 257 failures into a result that already holds failures of earlier tests), optionally "
         "with injected EINTR; non-trivial = at least one failure recorded or one retry; distinct = distinct op sequences. "
         "thorough: all 65536 16-bit status words, every EINTR run 0..40 before and after a stop, every signal 1..31 and exit "
         "status 0..255 in every phase")
@@ -182,10 +192,57 @@ def group_lines(rng, n):
     return out
 
 
+def ignored_case(rng, i):
+    """registry entries of kind IgnoredUtestShell (IGNORE_TEST) with dying bodies, in separate-process mode, with run-ignored
+    on (API `ri` or `-ri` on the command line: they must be forked and contained like every test) or off (not run at all);
+    test 0 is always an ordinary test"""
+    n = rng.choice([3, 4, 5])
+    ops = ["tests %d" % n] + group_lines(rng, n)
+    ri = i % 4 != 3
+    if i % 2:
+        others = [a for a in CLI_OTHER if a != "-ri" and rng.random() < 0.2]
+        if ri:
+            others.append("-ri")
+        rng.shuffle(others)
+        others.insert(rng.randrange(len(others) + 1), "-p")
+        ops.append("cli " + " ".join(others[:10]))
+    elif ri:
+        ops.append("ri")
+    ign = set(rng.sample(range(1, n), rng.choice([1, min(2, n - 1)])))
+    for t in range(n):
+        if t in ign:
+            ops.append("ign %d" % t)
+            x = rng.random()
+            if x < 0.5:
+                acts = [("signal", rng.choice([9, 11, 6, 15, 8, rng.choice(SIGS_TERM)]))]
+            elif x < 0.75:
+                acts = [("exit", rng.choice([1, 7, 77, 255]))]
+            elif x < 0.85:
+                acts = [("stop", 0), ("exit", rng.choice([0, 3]))]
+            elif x < 0.95:
+                acts = [("fail", 0)]
+            else:
+                acts = [("none", 0)]
+            if rng.random() < 0.8:
+                ops.append("real %d %s %s" % (t, rng.choice(["setup", "body", "teardown"]), " ".join("%s %d" % a for a in acts)))
+            else:
+                ops.append("w %d st %x" % (t, rng.choice([st_sig(9), st_exit(7), 0, st_sig(11, True)])))
+        elif rng.random() < 0.4:
+            ops.append("w %d st %x" % (t, rng.choice([0, 0, st_exit(1), st_sig(6)])))
+        else:
+            ops.append("real %d body %s" % (t, rng.choice(["none 0", "none 0", "exit 2", "signal 15"])))
+    ops.append("run")
+    return ops
+
+
 def stub_case(rng):
     n = rng.choice([1, 2, 3, 3, 4, 6])
     ops = ["tests %d" % n] + group_lines(rng, n)
-    if rng.random() < 0.15:
+    if n > 1 and rng.random() < 0.12:                      # an IGNORE_TEST entry among them, mostly with run-ignored
+        ops.append("ign %d" % rng.randrange(1, n))
+        if rng.random() < 0.7:
+            ops.append("ri")
+    elif rng.random() < 0.15:
         ops.append(cli_line(rng))
     per = [script(rng, t) for t in range(n)]
     if rng.random() < 0.3:                                # interleave the lines of different tests (order per test kept)
@@ -339,10 +396,34 @@ def rand_action(rng):
     if x < 0.55:
         return [("exit", rng.choice([0, 1, 2, 77, 78, 255, rng.randrange(0, 256)]))]
     if x < 0.7:
-        return [("fail", 0)]
+        return [("fail", rng.choice([0, 0, 0, 1, 2, 254, 255, 256]))]     # K+1 failures when reported by a plugin action
     if x < 0.85:
         return [("stop", 0)] * rng.choice([1, 1, 2]) + rng.choice([[], [("signal", rng.choice(SIGS_TERM))], [("exit", rng.randrange(0, 4))], [("fail", 0)]])
     return [("none", 0)]
+
+
+def child_count_cases(rng, quick):
+    """the child's verdict is `new failures?`, not a count: plugin actions that report 1, 2, 255, 256, 257 failures
+    (an exit status is 8 bits wide), in a result object that already holds failures of earlier tests; every such
+    child must arrive as exactly one failure, and a clean child after them as none"""
+    out = []
+    ks = [0, 1, 254, 255, 256] if quick else [0, 1, 2, 3, 127, 253, 254, 255, 256, 257, 511, 767]
+    for ph in ("pre", "post"):
+        for k in ks:
+            prior = rng.choice([0, 1, 2, 3])
+            tests = []
+            for _ in range(prior):
+                tests.append(rng.choice(["real %d body fail 0", "real %d setup signal 11", "real %d post fail 1", "real %d body exit 3"]))
+            tests.append("real %%d %s fail %d" % (ph, k))
+            tests.append("real %d body none 0")
+            tests.append("real %%d %s fail %d fail 0" % (rng.choice(["pre", "post"]), rng.choice(ks)))
+            tests.append("real %d teardown none 0")
+            ops = ["tests %d" % len(tests)] + group_lines(rng, len(tests))
+            if rng.random() < 0.3:
+                ops.append(cli_line(rng))
+            ops += [t % i for i, t in enumerate(tests)] + ["run"]
+            out.append(ops)
+    return out
 
 
 def generate(rng, tier):
@@ -396,6 +477,10 @@ def generate(rng, tier):
         for _ in range(600):
             dying = [(rng.choice(PHASES), rand_action(rng), rng.choice([0, 0, 0, 1, 5, B, B + 3, B + 10])) for _ in range(rng.choice([1, 2, 3, 4]))]
             out.append(("real", real_case(rng, dying)))
+    for ops in child_count_cases(rng, quick):
+        out.append(("childcount", ops))
+    for i in range(40 if quick else 400):
+        out.append(("ignored", ignored_case(rng, i)))
     for i in range(60 if quick else 800):
         out.append(("groups", grouped_case(rng, cli=(i % 3 == 0))))
     # real waitpid seam interrupted by a periodic signal whose handler has no SA_RESTART, while a child sleeps
@@ -460,6 +545,8 @@ def malformed_case(rng):
 
 
 def translate(ctx):
+    # extract_sepproc runs translate/cxx2lean_c11.py (clang AST -> Gen/SeparateProcessLoop.lean) and reads the
+    # constants of Gen/SeparateProcessConstants.lean off its output
     from translate import extract_sepproc
     return extract_sepproc.run()
 
@@ -517,12 +604,23 @@ def observe(r, rep):
             rep.count("real_wait_interrupted_by_timer." + ("0-9" if n < 10 else "10-31" if n < 32 else "32-99" if n < 100 else "100+"))
         elif l.startswith("forkfail "):
             rep.count("real_fork_failure_scenario." + l.split()[1])
+        elif l.startswith("childst "):
+            w = l.split()
+            try:
+                v = int(w[2], 16)
+                rep.count("child_end." + ("exit0" if v == 0 else "exit1_own_verdict" if v == 0x100 else
+                                          "killed_by_signal" if v & 0x7f else "exit_other_code"))
+            except ValueError:
+                rep.count("child_end.unreadable")
         elif l.startswith("inrunner "):
             rep.count("test_executed_inside_runner")
         elif l.startswith("exitcode "):
             rep.count("cli_runs.exitcode_" + ("zero" if l.split()[1] == "0" else "nonzero"))
         elif l.startswith("childtext "):
             rep.count("child_failure_text_on_shared_stdout." + ("yes" if l.split()[2] != "0" else "none_expected_or_seen"))
+    if any(o.startswith("ign ") for o in r.ops):
+        ri = "ri" in r.ops or any(o.startswith("cli ") and "-ri" in o.split() for o in r.ops)
+        rep.count("ignored_kind_entries.run_ignored_" + ("on" if ri else "off"))
     if r.id.startswith("words:"):
         rep.count("status_words_16bit", sum(1 for o in r.ops if o.startswith("w ")) // 2)
 
@@ -601,20 +699,27 @@ def extra(ctx, exe):
         if ctx.tier == "thorough" else "sampled (thorough tier is exhaustive)")
 
 
-LEVEL_TEXT = ("Machine-checked Lean 4 theorems over an executable model of GccPlatformSpecificRunTestInASeperateProcess for every "
-              "sequence of fork/waitpid results of any length and every 32-bit status word: exactly one failure of the right class "
-              "per death event (signal with its number, non-zero exit, stop), none for a normal exit, fork and waitpid failures "
-              "reported once, EINTR retried at most bound+2 times in total (bound regenerated from the source) with exactly one "
-              "giving-up failure, the loop ends exactly at the first exited/killed status, SIGCONT once per stop, the registry "
-              "sets the flag for every test whatever the grouping (placement regenerated), goes on to every later test and "
-              "reports an overall failure (also as the runner's exit code); the child exits non-zero iff any step (plugin pre/post "
-              "action, setup, body, teardown) added a failure; on a build without fork every test gets exactly the one "
-              "'-p doesn't work' failure. The glibc macro bit-twiddling is proved equal to the "
-              "textbook reading of the status word. The model is tied to the code on every run by regenerated constants/chain, a "
-              "shape check of the loop, and a differential harness (stubbed seams: all status words, EINTR grids; real children: "
-              "every signal and exit status in every phase, under ASan/UBSan and a deadline).")
+LEVEL_TEXT = ("Machine-checked Lean 4 theorems for every sequence of fork/waitpid results of any length and every 32-bit status word: "
+              "exactly one failure of the right class per death event (signal with its number, non-zero exit, stop), none for a normal "
+              "exit, fork and waitpid failures reported once, EINTR retried at most bound+2 times in total with exactly one giving-up "
+              "failure, the loop ends exactly at the first exited/killed status, SIGCONT once per stop, the registry sets the flag for "
+              "every test whatever the grouping and whatever its kind (IGNORE_TEST entries run with -ri go through the same dispatch: "
+              "the branch of IgnoredUtestShell::runOneTest is regenerated), goes on to every later test and reports an overall failure (also as the runner's exit "
+              "code); the child exits non-zero iff any step (plugin pre/post action, setup, body, teardown) added a failure, whatever "
+              "the result already held; on a build without fork every test gets exactly the one '-p doesn't work' failure. "
+              "SetTestFailureByStatusCode and the whole fork/waitpid function (code in front of the loop, one pass through the "
+              "do/while body, loop condition, the child's _exit argument) are REGENERATED on every run from the clang AST with the "
+              "installed headers' macro expansions, as functions on BitVec 32 / BitVec 64, and proved equal to the hand model "
+              "(genRunSeparate_eq_model, setTestFailureGen_eq, genChildStatus_eq); the main theorems are restated about the "
+              "regenerated function (source_*). The macro expansions are proved equal to the textbook reading of the status word. "
+              "Registry loop, child steps and the -p path stay a hand model tied by regenerated tables/placements, shape checks and "
+              "the differential harness (stubbed seams: all status words, EINTR grids; real children: every signal and exit status in "
+              "every phase, the status each child ended with, under ASan/UBSan and a deadline).")
 LEVEL_NOTE = ("Partial with respect to real process death: kernel signal delivery and waitpid semantics are observed (part b), not "
-              "proved. Trusted: Lean kernel; the hand-written model (validated by this run's correspondence); the extractor; the "
-              "textbook status-word reading Spec.classify; glibc's macro definitions as transcribed.")
-TECHNIQUE = ("Lean 4 structural-induction proofs over an executable model of the wait loop + regenerated constants and loop shape "
-             "check + differential correspondence harness with stubbed seams (exhaustive status words) and real child processes")
+              "proved. Trusted: Lean kernel; the AST translator's environment split and typing (its output is also executed against "
+              "the real code by the driver); the hand-written registry/child model (validated by this run's correspondence); the "
+              "textbook status-word reading Spec.classify. Only observed: output printed by the child into shared buffers, "
+              "kill(SIGCONT) failing, a check macro failing inside a plugin action of the child.")
+TECHNIQUE = ("Lean 4 structural-induction proofs over an executable model of the wait loop + the function itself regenerated from the "
+             "clang JSON AST (symbolic execution to BitVec functions) and proved equal to the model + differential correspondence "
+             "harness with stubbed seams (exhaustive status words) and real child processes")
